@@ -566,16 +566,20 @@ class Builder:
             self.p_optional = [0.5, 0.0, 1.0, 0.25, 0.75][k % 5]
             if depth == 0:
                 self.nodes = 0
+            nodes_before = self.nodes
             try:
                 inst = self.gen_instance(cls, depth)
             except (RecursionError, BudgetExceeded):
+                if depth > 0:
+                    raise       # the instance under construction at the top is too big
                 inst = None
             if inst is None:
                 continue
             n_tried += 1
             errors = list(self.sdk.verification.verify(inst))
             if not errors:
-                self.pool.setdefault(cls.name, []).append(inst)
+                size = max(1, self.nodes - nodes_before)
+                self.pool.setdefault(cls.name, []).append((inst, size))
                 return copy.deepcopy(inst), n_tried
             self.last_errors = [f"{e.path}: {e.cause}"[:160] for e in errors[:3]]
         return None, n_tried
@@ -585,10 +589,19 @@ class Builder:
         if cls.name in self.hopeless:
             return None
         pool = self.pool.get(cls.name, [])
+
+        def from_pool():
+            # copies count towards the node budget of the instance under construction
+            inst_, size_ = self.rng.choice(pool)
+            self.nodes += size_
+            if self.nodes > self.node_budget:
+                raise BudgetExceeded()
+            return copy.deepcopy(inst_)
+
         if pool and (len(pool) >= 4 or self.rng.random() < 0.5 or depth >= self.max_depth):
-            return copy.deepcopy(self.rng.choice(pool))
+            return from_pool()
         if cls.name in self.in_progress:
-            return copy.deepcopy(self.rng.choice(pool)) if pool else None
+            return from_pool() if pool else None
         self.in_progress.add(cls.name)
         saved = self.p_optional
         try:
@@ -973,17 +986,26 @@ def run_model(payload):
             res["valid_fail"].append({"kind": "sdk-write-exception", "cls": cls.name,
                                       "error": type(exc).__name__ + ": " + str(exc)[:200]})
             continue
+        if len(doc) > 300000:
+            stats["oversized_documents"] = stats.get("oversized_documents", 0) + 1
+            continue
         res["docs"] += 1
         stats["docs_per_class"][cls.name] = stats["docs_per_class"].get(cls.name, 0) + 1
         bad = []
+        validator_broke = False
         for sch in schemas:
             try:
                 errs = [" ".join(str(e.reason or e.message).split())[:300] + " @ " + str(e.path)
                         for e in sch.iter_errors(doc)]
-            except Exception as exc:  # noqa
-                errs = [f"validator exception {type(exc).__name__}: {str(exc)[:200]}"]
+            except Exception as exc:  # noqa  (a limit of the validator is no verdict)
+                validator_broke = True
+                stats["validator_exceptions"] = stats.get("validator_exceptions", 0) + 1
+                stats["validator_exception_sample"] = f"{type(exc).__name__}: {str(exc)[:160]}"
+                break
             if errs:
                 bad.append({"validator": type(sch).__name__, "errors": errs[:3]})
+        if validator_broke:
+            continue
         if bad:
             res["valid_fail"].append({"kind": "valid-document-rejected", "cls": cls.name,
                                       "document": doc[:4000], "verdicts": bad})
